@@ -165,8 +165,15 @@ def rotation(check, prog, canon):
             comps = [x for x in subterms(v) if x[0] == 'comp']
             ok = bool(comps) and comps[0][3][0][1] == pts and \
                 comps[0][2] == ('call', 'numpy.dot', (rot, comps[0][3][0][0]), ())
+        if ok:
+            # the single matrix product is taken exactly for one point, i.e. a
+            # one-dimensional input: a test on the shape (3 rows) would also catch
+            # a list of exactly three points and rotate them as columns
+            from .common import canon_cond
+            c1 = canon_cond(one[0].cond)
+            ok = c1 == [(intern(('cmp', '==', ('attr', pts, 'ndim'), num(1))), True)]
     check.require(ok, 'M2-rotate-points', 'rotate_points',
-                  'rot . p for one point, [rot . p for p in points] for many, with '
+                  'rot . p for one (1-d) point, [rot . p for p in points] for many, with '
                   'rot = rotation_matrix(theta, phi, psi) in that argument order',
                   prog.loc(q, fd), fail_detail='returns %s' % [
                       show(o.value)[:120] for o in rets])
